@@ -149,6 +149,24 @@ def unpack1 (fmt : Str) (b : Bytes) : Option Int :=
   else if fmt = ['B'] then (if b.length = 1 then some (beNat b : Int) else none)
   else none
 
+/-- the low `L` base-256 digits of `m` as bytes, most significant first -/
+def beBytes (m : Nat) : Nat → Bytes
+  | 0 => []
+  | L+1 => beBytes (m / 256) L ++ [UInt8.ofNat (m % 256)]
+
+/-- `struct.pack(fmt, *xs)` for the formats `'>kQ'` the code builds with `'>{}Q'.format(k)` (`k` in canonical decimal): `k` unsigned 64-bit
+    big-endian fields.  `struct.error` — `none` — when `k` is not the number of values or a value is outside `0 .. 2^64-1`; any other spelling of
+    a format is `none` too (the code never builds one) -/
+def packQ (fmt : Str) (xs : List Int) : Option Bytes :=
+  if fmt = '>' :: (fmtD (Int.ofNat xs.length) ++ ['Q']) ∧ (∀ x ∈ xs, 0 ≤ x ∧ x < 18446744073709551616) then
+    some (xs.flatMap fun x => beBytes x.toNat 8)
+  else none
+
+/-- `b.startswith(p)` on bytes -/
+def startsWithB (b p : Bytes) : Bool := p.isPrefixOf b
+/-- `b.lstrip(cs)` on bytes: leading bytes that occur in `cs` removed -/
+def lstripB (b cs : Bytes) : Bytes := b.dropWhile (fun x => cs.contains x)
+
 /-! ### the definitions agree with CPython on sampled values (expected values computed with CPython 3.12) -/
 example : band (-6) 29 = 24 ∧ band 29 (-6) = 24 ∧ band (-6) (-29) = -30 ∧ band 4242 999 = 130 := by decide
 example : bor (-6) 29 = -1 ∧ bor 29 (-7) = -3 ∧ bor (-6) (-29) = -5 ∧ bor 4242 999 = 5111 ∧ bor (-100) 33 = -67 := by decide
@@ -171,6 +189,11 @@ example : repeatB [255] 3 = [255, 255, 255] ∧ repeatB [0] (-1) = [] ∧ range3
     ∧ unpack1 ['>', 'i'] [127, 0, 0, 1] = some 2130706433 ∧ unpack1 ['>', 'I'] [1, 2, 3] = none ∧ unpack1 ['>', 'H'] [1, 2] = some 258 := by decide
 example : fmtD 0 = ['0'] ∧ fmtD (-12) = ['-', '1', '2'] ∧ fmtD 3072 = ['3', '0', '7', '2'] := by decide
 example : indexOf [(0 : Int), 2, 3, 1, -1] 1 = some 3 ∧ indexOf [(0 : Int), 2, 3, 1, -1] 7 = none ∧ indexOf [(5 : Int), 5] 5 = some 0 := by decide
+example : packQ ">2Q".toList [1, 18446744073709551615] = some [0, 0, 0, 0, 0, 0, 0, 1, 255, 255, 255, 255, 255, 255, 255, 255]
+    ∧ packQ ">0Q".toList [] = some [] ∧ packQ ">1Q".toList [-1] = none ∧ packQ ">1Q".toList [18446744073709551616] = none
+    ∧ packQ ">2Q".toList [1] = none ∧ packQ ">1Q".toList [72623859790382856] = some [1, 2, 3, 4, 5, 6, 7, 8] := by decide
+example : startsWithB [255, 128, 1] [255, 128] = true ∧ startsWithB [255] [255, 128] = false ∧ startsWithB [] [] = true
+    ∧ lstripB [0, 0, 1, 0] [0] = [1, 0] ∧ lstripB [0, 0] [0] = [] ∧ lstripB [1, 0] [0] = [1, 0] := by decide
 
 end Py
 end SshAudit
